@@ -1420,9 +1420,9 @@ func runCwScenario(t *testing.T, idx int, kind string, sc cwScenario, em *Emitte
 			}
 			oneStep(i, a)
 		}
-		wd.mu.Lock()
-		wd.active = false
-		wd.mu.Unlock()
+		// the cleanup below STAYS under the watchdog (a read loop parked for good under the registry lock shows there at
+		// the latest: the handlers released by the cleanup wait for that lock for ever): reported as a wedge of the scenario
+		wdProgress.Add(1)
 		c2s, s2c = rig.c2sHistory(), link.S.WrittenCopy()
 		if sc.Mode == "server" {
 			rig.mu.Lock()
